@@ -41,8 +41,9 @@ package corebgp
 
 //@ func fsm.drainAndResetHoldTimer
 //@   requires f.holdTimer != nil
-//@   modifies timerOn(f.holdTimer), timerDur(f.holdTimer), timerMayHold(f.holdTimer)
+//@   modifies timerOn(f.holdTimer), timerDur(f.holdTimer), timerMayHold(f.holdTimer), timerEpoch(f.holdTimer)
 //@   ensures [rearmed] timerOn(f.holdTimer) && timerDur(f.holdTimer) == f.holdTime && !timerMayHold(f.holdTimer)
+//@   ensures [restarted] timerEpoch(f.holdTimer) > old(timerEpoch(f.holdTimer))
 
 // ---- reader life cycle (C10) ----
 //@ func fsm.startReading
@@ -51,6 +52,7 @@ package corebgp
 //@   requires !readerRunning(f)
 //@   at call read#0 set readerRunning(f) = true
 //@   modifies f.closeReaderCh, f.closeReaderOnce, f.readerDoneCh, f.readerErrCh, f.readerMsgCh, readerRunning(f), onceDone(f.closeReaderOnce)
+//@   ensures [rendezvous_channels] chanCap(f.readerMsgCh) == 0 && chanCap(f.readerErrCh) == 0
 //@   ensures [started] readerRunning(f) && f.readerMsgCh != nil && f.readerErrCh != nil && f.readerDoneCh != nil && f.closeReaderCh != nil && !chanClosed(f.closeReaderCh) && !onceDone(f.closeReaderOnce) && fresh(f.closeReaderCh) && fresh(f.readerDoneCh)
 
 // conn closed if there is one, reader joined, f.conn cleared
@@ -117,7 +119,7 @@ package corebgp
 //@   requires [self] fsmSelf(f) && !dialPending(f) && !readerRunning(f)
 //@   ghostvar timerArm bool = false
 //@   at select#0 case 1 set timerArm = true
-//@   modifies f.connectRetryTimer, f.dialResultCh, f.cancelDialFn, dialPending(f), timerOn(f.idleHoldTimer), timerDur(f.idleHoldTimer), timerMayHold(f.idleHoldTimer)
+//@   modifies f.connectRetryTimer, f.dialResultCh, f.cancelDialFn, dialPending(f), timerOn(f.idleHoldTimer), timerDur(f.idleHoldTimer), timerMayHold(f.idleHoldTimer), timerEpoch(f.idleHoldTimer)
 //@   ensures [result] s == 0 || s == 2
 //@   ensures [connect_only_after_idle_hold] s == 2 ==> timerArm && dialPending(f) && f.dialResultCh != nil && f.cancelDialFn != nil && f.connectRetryTimer != nil && timerOn(f.connectRetryTimer) && timerDur(f.connectRetryTimer) == f.peer.options.connectRetryTime && timerOn(f.idleHoldTimer) && timerDur(f.idleHoldTimer) == f.peer.options.idleHoldTime
 //@   ensures [disabled_starts_nothing] s == 0 ==> !dialPending(f) && f.connectRetryTimer == old(f.connectRetryTimer)
@@ -142,10 +144,11 @@ package corebgp
 //@   ensures [next_state_ready] stateReq(f, s) && readerFields(f) && fsmSelf(f)
 //@   requires [self] fsmSelf(f) && dialPending(f) && f.dialResultCh != nil && f.cancelDialFn != nil && f.connectRetryTimer != nil && !readerRunning(f)
 //@   ghostvar redials int = 0
+//@   at select#0 case 2 assert [waits_on_the_current_retry_timer] selchan == f.connectRetryTimer.C
 //@   at call dialPeer#0 set redials = redials + 1
 //@   at call dialPeer#0 assert [redial_only_after_retry_timer_and_failed_dial] !dialPending(f) && timerOn(f.connectRetryTimer) && timerDur(f.connectRetryTimer) == f.peer.options.connectRetryTime
 //@   loop#0 invariant [pending] fsmSelf(f) && dialPending(f) && f.dialResultCh != nil && f.cancelDialFn != nil && f.connectRetryTimer != nil && !readerRunning(f)
-//@   modifies f.conn, f.holdTimer, f.connectRetryTimer, f.dialResultCh, f.cancelDialFn, f.closeReaderCh, f.closeReaderOnce, f.readerDoneCh, f.readerErrCh, f.readerMsgCh, dialPending(f), readerRunning(f), onceDone(f.closeReaderOnce), timerOn, timerDur, timerMayHold, nwrites, lastKind, connClosed
+//@   modifies f.conn, f.holdTimer, f.connectRetryTimer, f.dialResultCh, f.cancelDialFn, f.closeReaderCh, f.closeReaderOnce, f.readerDoneCh, f.readerErrCh, f.readerMsgCh, dialPending(f), readerRunning(f), onceDone(f.closeReaderOnce), timerOn, timerDur, timerMayHold, timerEpoch, nwrites, lastKind, connClosed
 //@   ensures [result] s == 0 || s == 1 || s == 4
 //@   ensures [dial_consumed] !dialPending(f)
 //@   ensures [open_sent] s == 4 ==> connUp(f) && f.holdTimer != nil && timerOn(f.holdTimer) && timerDur(f.holdTimer) == 240000000000 && lastKind(f.conn) == 1
@@ -159,7 +162,7 @@ package corebgp
 //@   requires [self] fsmSelf(f) && !dialPending(f) && !readerRunning(f) && (f.conn == nil ==> f.connectRetryTimer != nil) && (f.conn != nil ==> !connClosed(f.conn))
 //@   ghostvar timerArm bool = false
 //@   at select#0 case 0 set timerArm = true
-//@   modifies f.conn, f.holdTimer, f.connectRetryTimer, f.dialResultCh, f.cancelDialFn, f.closeReaderCh, f.closeReaderOnce, f.readerDoneCh, f.readerErrCh, f.readerMsgCh, dialPending(f), readerRunning(f), onceDone(f.closeReaderOnce), timerOn, timerDur, timerMayHold, nwrites, lastKind, connClosed
+//@   modifies f.conn, f.holdTimer, f.connectRetryTimer, f.dialResultCh, f.cancelDialFn, f.closeReaderCh, f.closeReaderOnce, f.readerDoneCh, f.readerErrCh, f.readerMsgCh, dialPending(f), readerRunning(f), onceDone(f.closeReaderOnce), timerOn, timerDur, timerMayHold, timerEpoch, nwrites, lastKind, connClosed
 //@   ensures [result] s == 0 || s == 1 || s == 2 || s == 4
 //@   ensures [inbound_sends_open] old(f.conn) != nil ==> s == 4 || s == 1
 //@   ensures [dial_only_after_retry_timer] s == 2 ==> old(f.conn) == nil && timerArm && dialPending(f) && f.dialResultCh != nil && f.cancelDialFn != nil && f.connectRetryTimer != nil && timerOn(f.connectRetryTimer) && timerDur(f.connectRetryTimer) == f.peer.options.connectRetryTime
@@ -200,7 +203,7 @@ package corebgp
 //@   at call OnOpenMessage#0 assert [identifier_and_capabilities] arg2 == addr4(rid / 16777216, (rid / 65536) % 256, (rid / 256) % 256, rid % 256) && arg3.arr == gcA && arg3.off == gcO && len(arg3) == gcL
 //@   at call OnOpenMessage#0 set nOnOpen = nOnOpen + 1
 //@   at call OnOpenMessage#0 after set plugN = result
-//@   modifies f.remoteID, f.holdTime, f.keepAliveInterval, f.keepAliveTimer, f.connectRetryTimer, nwrites(f.conn), lastKind(f.conn), lastCode(f.conn), lastSub(f.conn), lastDataLen(f.conn), lastData0(f.conn), timerOn, timerDur, timerMayHold
+//@   modifies f.remoteID, f.holdTime, f.keepAliveInterval, f.keepAliveTimer, f.connectRetryTimer, nwrites(f.conn), lastKind(f.conn), lastCode(f.conn), lastSub(f.conn), lastDataLen(f.conn), lastData0(f.conn), timerOn, timerDur, timerMayHold, timerEpoch
 //@   ensures [result_states] to == 0 || to == 1 || to == 3 || to == 5
 //@   ensures [error_unless_progress] (to == 5) == (err == nil)
 //@   ensures [at_most_one_write] nwrites(f.conn) == old(nwrites(f.conn)) || nwrites(f.conn) == old(nwrites(f.conn)) + 1
@@ -239,7 +242,7 @@ package corebgp
 //@   requires [fields] readerFields(f)
 //@   ensures [next_state_ready] stateReq(f, to) && readerFields(f) && fsmSelf(f)
 //@   requires [self] fsmSelf(f) && connUp(f) && f.holdTimer != nil
-//@   modifies f.conn, f.remoteID, f.holdTime, f.keepAliveInterval, f.keepAliveTimer, f.connectRetryTimer, nwrites(f.conn), lastKind(f.conn), lastCode(f.conn), lastSub(f.conn), lastDataLen(f.conn), lastData0(f.conn), connClosed(f.conn), readerRunning(f), chanClosed(f.closeReaderCh), onceDone(f.closeReaderOnce), timerOn, timerDur, timerMayHold
+//@   modifies f.conn, f.remoteID, f.holdTime, f.keepAliveInterval, f.keepAliveTimer, f.connectRetryTimer, nwrites(f.conn), lastKind(f.conn), lastCode(f.conn), lastSub(f.conn), lastDataLen(f.conn), lastData0(f.conn), connClosed(f.conn), readerRunning(f), chanClosed(f.closeReaderCh), onceDone(f.closeReaderOnce), timerOn, timerDur, timerMayHold, timerEpoch
 //@   ensures [result_states] to == 0 || to == 1 || to == 3 || to == 5
 //@   ensures [error_unless_progress] (to == 5) == (err == nil)
 //@   ensures [torn_down_unless_progress] to != 5 ==> f.conn == nil && connClosed(old(f.conn)) && !readerRunning(f) && !timerOn(f.holdTimer)
@@ -267,7 +270,7 @@ package corebgp
 //@   at select#0 case 4 set arm = 4
 //@   at call sendKeepAlive#0 set nka = nka + 1
 //@   loop#0 invariant [session] fsmSelf(f) && connUp(f) && sessionTimers(f) && nwrites(f.conn) == old(nwrites(f.conn)) + nka && nka >= 0 && f.conn == old(f.conn) && (nka > 0 ==> lastKind(f.conn) == 4)
-//@   modifies nwrites(f.conn), lastKind(f.conn), lastCode(f.conn), lastSub(f.conn), lastDataLen(f.conn), lastData0(f.conn), timerOn, timerDur, timerMayHold
+//@   modifies nwrites(f.conn), lastKind(f.conn), lastCode(f.conn), lastSub(f.conn), lastDataLen(f.conn), lastData0(f.conn), timerOn, timerDur, timerMayHold, timerEpoch
 //@   ensures [result_states] to == 0 || to == 1 || to == 6
 //@   ensures [error_unless_progress] (to == 6) == (err == nil)
 //@   ensures [close_sends_cease] arm == 0 ==> to == 0 && lastNotif(f.conn, 6, 0) && hasType(err, *notificationError)
@@ -292,7 +295,7 @@ package corebgp
 //@   requires [fields] readerFields(f)
 //@   ensures [next_state_ready] stateReq(f, to) && readerFields(f) && fsmSelf(f)
 //@   requires [self] fsmSelf(f) && connUp(f) && sessionTimers(f)
-//@   modifies f.conn, nwrites(f.conn), lastKind(f.conn), lastCode(f.conn), lastSub(f.conn), lastDataLen(f.conn), lastData0(f.conn), connClosed(f.conn), readerRunning(f), chanClosed(f.closeReaderCh), onceDone(f.closeReaderOnce), timerOn, timerDur, timerMayHold
+//@   modifies f.conn, nwrites(f.conn), lastKind(f.conn), lastCode(f.conn), lastSub(f.conn), lastDataLen(f.conn), lastData0(f.conn), connClosed(f.conn), readerRunning(f), chanClosed(f.closeReaderCh), onceDone(f.closeReaderOnce), timerOn, timerDur, timerMayHold, timerEpoch
 //@   ensures [result_states] to == 0 || to == 1 || to == 6
 //@   ensures [error_unless_progress] (to == 6) == (err == nil)
 //@   ensures [torn_down_unless_progress] to != 6 ==> f.conn == nil && connClosed(old(f.conn)) && !readerRunning(f) && !timerOn(f.holdTimer) && !timerOn(f.keepAliveTimer)
@@ -316,8 +319,11 @@ package corebgp
 // signal iff the hold time is non-zero; returns when told to.
 //@ func fsm.established$1
 //@   requires f != nil && f.keepAliveTimer != nil && kaManagerDoneCh != nil && !chanClosed(kaManagerDoneCh) && closeKAManagerCh != nil && resetKATimerCh != nil
+//@   ghostvar stopSeen bool = false
+//@   at select#0 case 0 set stopSeen = true
+//@   ensures [serves_until_told_to_stop] stopSeen
 //@   at call Reset#0 assert [only_for_nonzero_hold_time] f.holdTime != 0 && arg1 == f.keepAliveInterval
-//@   modifies timerOn, timerDur, timerMayHold, chanClosed
+//@   modifies timerOn, timerDur, timerMayHold, timerEpoch, chanClosed
 
 // arm: 0 close request, 1 hold timer, 2 keepalive timer, 3 reader error, 4 message.
 //@ func fsm.established$2 returns (to, err)
@@ -331,6 +337,8 @@ package corebgp
 //@   ghostvar rerrN int = 0
 //@   at select#0 case 3 set rerrIsN = hasType(result, *notificationError)
 //@   at select#0 case 3 set rerrN = firstOf(result, *notificationError)
+//@   ghostvar ep int = 0
+//@   at select#0 case 4 set ep = timerEpoch(f.holdTimer)
 //@   at select#0 case 0 set arm = 0
 //@   at select#0 case 1 set arm = 1
 //@   at select#0 case 1 assert [no_expiry_when_hold_time_zero] f.holdTime != 0
@@ -338,13 +346,14 @@ package corebgp
 //@   at select#0 case 2 assert [no_keepalive_when_hold_time_zero] f.holdTime != 0
 //@   at select#0 case 3 set arm = 3
 //@   at select#0 case 4 set arm = 4
+//@   loop#0 invariant [every_keepalive_or_update_restarts_the_hold_timer] arm == 4 && f.holdTime != 0 ==> timerEpoch(f.holdTimer) > ep
 //@   at call OnEstablished#0 assert [first_callback] nEst == 0 && nwrites(f.conn) == old(nwrites(f.conn))
 //@   at call OnEstablished#0 assert [writer_bound_to_this_connection] isType(arg2, *updateMessageWriter) && asType(arg2, *updateMessageWriter).conn == f.conn && asType(arg2, *updateMessageWriter).closeCh != nil && !chanClosed(asType(arg2, *updateMessageWriter).closeCh) && asType(arg2, *updateMessageWriter).resetKATimerCh == resetKATimerCh
 //@   at call OnEstablished#0 set nEst = nEst + 1
 //@   at call OnEstablished#0 set wr = asType(arg2, *updateMessageWriter)
 //@   at call handler#0 assert [only_while_established] nEst == 1 && !chanClosed(asPtr(wr, *updateMessageWriter).closeCh)
 //@   loop#0 invariant [session] fsmSelf(f) && connUp(f) && estTimers(f) && nEst == 1 && f.conn == old(f.conn) && wr != 0 && asPtr(wr, *updateMessageWriter).closeCh != nil && !chanClosed(asPtr(wr, *updateMessageWriter).closeCh) && !chanClosed(closeKAManagerCh) && resetKATimerCh != nil && closeKAManagerCh != asPtr(wr, *updateMessageWriter).closeCh && (nwrites(f.conn) > old(nwrites(f.conn)) ==> lastKind(f.conn) != 3)
-//@   modifies nwrites(f.conn), lastKind(f.conn), lastCode(f.conn), lastSub(f.conn), lastDataLen(f.conn), lastData0(f.conn), timerOn, timerDur, timerMayHold, chanClosed(closeKAManagerCh)
+//@   modifies nwrites(f.conn), lastKind(f.conn), lastCode(f.conn), lastSub(f.conn), lastDataLen(f.conn), lastData0(f.conn), timerOn, timerDur, timerMayHold, timerEpoch, chanClosed(closeKAManagerCh)
 //@   ensures [result_states] to == 0 || to == 1
 //@   ensures [always_an_error] err != nil && errWellFormed(err)
 //@   ensures [on_established_once] nEst == 1
@@ -379,7 +388,7 @@ package corebgp
 //@   at call established$2#0 assert [keepalive_manager_runs_before_callbacks] kaRunning
 //@   at call OnClose#0 assert [after_teardown] f.conn == nil && !readerRunning(f) && !kaRunning && nClose == 0
 //@   at call OnClose#0 set nClose = nClose + 1
-//@   modifies f.conn, nwrites(f.conn), lastKind(f.conn), lastCode(f.conn), lastSub(f.conn), lastDataLen(f.conn), lastData0(f.conn), connClosed(f.conn), readerRunning(f), chanClosed(f.closeReaderCh), onceDone(f.closeReaderOnce), timerOn, timerDur, timerMayHold
+//@   modifies f.conn, nwrites(f.conn), lastKind(f.conn), lastCode(f.conn), lastSub(f.conn), lastDataLen(f.conn), lastData0(f.conn), connClosed(f.conn), readerRunning(f), chanClosed(f.closeReaderCh), onceDone(f.closeReaderOnce), timerOn, timerDur, timerMayHold, timerEpoch
 //@   ensures [result_states] to == 0 || to == 1
 //@   ensures [always_an_error] err != nil && errWellFormed(err)
 //@   ensures [on_close_exactly_once] nClose == 1
@@ -414,7 +423,7 @@ package corebgp
 //@ func fsm.cleanup
 //@   requires [self] fsmSelf(f) && readerFields(f) && (f.cancelDialFn != nil ==> f.dialResultCh != nil)
 //@   loop#0 invariant [stopped_so_far] -1 <= rangeindex && rangeindex <= 3 && f.conn == nil && !readerRunning(f) && (old(f.cancelDialFn) != nil ==> !dialPending(f)) && (old(f.conn) != nil ==> connClosed(old(f.conn))) && (rangeindex >= 0 && f.connectRetryTimer != nil ==> !timerOn(f.connectRetryTimer)) && (rangeindex >= 1 && f.holdTimer != nil ==> !timerOn(f.holdTimer)) && (rangeindex >= 2 && f.keepAliveTimer != nil ==> !timerOn(f.keepAliveTimer)) && (rangeindex >= 3 ==> !timerOn(f.idleHoldTimer))
-//@   modifies f.conn, connClosed, readerRunning(f), dialPending(f), chanClosed(f.closeReaderCh), onceDone(f.closeReaderOnce), timerOn, timerMayHold
+//@   modifies f.conn, connClosed, readerRunning(f), dialPending(f), chanClosed(f.closeReaderCh), onceDone(f.closeReaderOnce), timerOn, timerMayHold, timerEpoch
 //@   ensures [conn_closed] old(f.conn) != nil ==> connClosed(old(f.conn))
 //@   ensures [conn_cleared] f.conn == nil
 //@   ensures [reader_joined] !readerRunning(f)
@@ -444,7 +453,7 @@ package corebgp
 //@   at call established#0 assert [approved] echoTo == 6
 //@   at return assert [cease_when_disabled_mid_transition] toBefore != 0 && t.from > 3 && f.conn != nil ==> lastNotif(f.conn, 6, 0)
 //@   loop#0 invariant [state] fsmSelf(f) && readerFields(f) && stateReq(f, t.to) && t.to <= 6 && t.from <= 6 && (t.to == 5 ==> t.from == 4) && !chanClosed(f.doneCh) && (t.to == 0 || t.to == 1 ==> !dialPending(f))
-//@   modifies f.conn, f.remoteID, f.holdTime, f.keepAliveInterval, f.keepAliveTimer, f.holdTimer, f.connectRetryTimer, f.dialResultCh, f.cancelDialFn, f.closeReaderCh, f.closeReaderOnce, f.readerDoneCh, f.readerErrCh, f.readerMsgCh, nwrites, lastKind, lastCode, lastSub, lastDataLen, lastData0, connClosed, readerRunning(f), dialPending(f), chanClosed, onceDone, timerOn, timerDur, timerMayHold
+//@   modifies f.conn, f.remoteID, f.holdTime, f.keepAliveInterval, f.keepAliveTimer, f.holdTimer, f.connectRetryTimer, f.dialResultCh, f.cancelDialFn, f.closeReaderCh, f.closeReaderOnce, f.readerDoneCh, f.readerErrCh, f.readerMsgCh, nwrites, lastKind, lastCode, lastSub, lastDataLen, lastData0, connClosed, readerRunning(f), dialPending(f), chanClosed, onceDone, timerOn, timerDur, timerMayHold, timerEpoch
 //@   ensures [everything_stopped] f.conn == nil && !readerRunning(f) && !dialPending(f) && chanClosed(f.doneCh)
 
 // The dial goroutine: sends its result(s) on the channel it was started with and
